@@ -21,6 +21,29 @@ pub fn activity() -> u64 {
 
 type Hook = Box<dyn FnOnce() + Send>;
 
+/// A runtime's cooperative budget, as tokio implements it: a task may do BUDGET reads per poll of the task; further reads
+/// answer Pending WITHOUT looking at the transport, and the waker they were given is woken only once the task has given
+/// control back to the executor (deferred wake). i64::MAX = no budget.
+pub static BUDGET_PER_POLL: std::sync::atomic::AtomicI64 = std::sync::atomic::AtomicI64::new(i64::MAX);
+pub static BUDGET_LEFT: std::sync::atomic::AtomicI64 = std::sync::atomic::AtomicI64::new(i64::MAX);
+pub static DEFERRED: Mutex<Vec<Waker>> = Mutex::new(Vec::new());
+pub static BUDGET_REFUSALS: AtomicU64 = AtomicU64::new(0);
+pub fn set_budget(k: Option<i64>) {
+    let k = k.unwrap_or(i64::MAX);
+    BUDGET_PER_POLL.store(k, Ordering::SeqCst);
+    BUDGET_LEFT.store(k, Ordering::SeqCst);
+    DEFERRED.lock().unwrap().clear();
+}
+/// the application's task has returned Pending to the executor: deferred wake-ups are delivered, the next poll has a fresh budget
+pub fn task_yielded() {
+    BUDGET_LEFT.store(BUDGET_PER_POLL.load(Ordering::SeqCst), Ordering::SeqCst);
+    let ws = std::mem::take(&mut *DEFERRED.lock().unwrap());
+    for w in ws {
+        bump();
+        w.wake();
+    }
+}
+
 #[derive(Default)]
 pub struct Chan {
     /// segments: each poll_read returns at most the rest of the first segment
@@ -94,6 +117,14 @@ impl AsyncRead for R {
         let hook = self.0 .0.lock().unwrap().on_read.take();
         if let Some(h) = hook {
             h();
+        }
+        if BUDGET_PER_POLL.load(Ordering::SeqCst) != i64::MAX {
+            if BUDGET_LEFT.load(Ordering::SeqCst) <= 0 {
+                DEFERRED.lock().unwrap().push(cx.waker().clone());
+                BUDGET_REFUSALS.fetch_add(1, Ordering::SeqCst);
+                return Poll::Pending;
+            }
+            BUDGET_LEFT.fetch_sub(1, Ordering::SeqCst);
         }
         let mut c = self.0 .0.lock().unwrap();
         c.reads += 1;
